@@ -65,11 +65,11 @@ Proof. induction tr1; simpl; intros; auto. destruct (step st a); auto. Qed.
 Lemma run_snoc : forall tr e st st', run st tr = Some st' -> run st (tr ++ [e]) = step st' e.
 Proof. intros. rewrite run_app, H. simpl. destruct (step st' e); auto. Qed.
 
-Lemma reachable_init : forall tz, reachable (init tz).
-Proof. intros. exists tz, []. reflexivity. Qed.
+Lemma reachable_init : forall tz cap, reachable (init tz cap).
+Proof. intros. exists tz, cap, []. reflexivity. Qed.
 
 Lemma reachable_step : forall st e st', reachable st -> step st e = Some st' -> reachable st'.
-Proof. intros st e st' (tz & tr & H) Hs. exists tz, (tr ++ [e]). rewrite (run_snoc _ _ _ _ H). exact Hs. Qed.
+Proof. intros st e st' (tz & cap & tr & H) Hs. exists tz, cap, (tr ++ [e]). rewrite (run_snoc _ _ _ _ H). exact Hs. Qed.
 
 Lemma reachable_run : forall tr st st', reachable st -> run st tr = Some st' -> reachable st'.
 Proof.
@@ -79,13 +79,13 @@ Qed.
 
 (** an invariant of [step] that holds initially holds in every reachable state *)
 Lemma reachable_ind : forall (P : state -> Prop),
-  (forall tz, P (init tz)) -> (forall st e st', P st -> step st e = Some st' -> P st') ->
+  (forall tz cap, P (init tz cap)) -> (forall st e st', P st -> step st e = Some st' -> P st') ->
   forall st, reachable st -> P st.
 Proof.
-  intros P H0 Hs st (tz & tr & H). revert st H.
+  intros P H0 Hs st (tz & cap & tr & H). revert st H.
   induction tr using rev_ind; intros.
   - simpl in H. inversion H; subst. apply H0.
-  - rewrite run_app in H. destruct (run (init tz) tr) eqn:E; try discriminate.
+  - rewrite run_app in H. destruct (run (init tz cap) tr) eqn:E; try discriminate.
     simpl in H. destruct (step s x) eqn:E2; try discriminate. inversion H; subst.
     apply (Hs s x st); [apply IHtr; reflexivity | exact E2].
 Qed.
@@ -149,9 +149,9 @@ Proof.
   - (* Sigint *)
     destruct (negb (main_ok st)); try discriminate.
     destruct (admin_only st) eqn:Ea. { fin Hs. exact Hok. }
-    fin Hs. unfold clients_ok in *. cbn [admin_only clients]. rewrite Ea in Hok.
-    apply Forall_forall. intros x Hx. apply in_map_iff in Hx. destruct Hx as (c & <- & Hc).
-    rewrite Forall_forall in Hok. specialize (Hok _ Hc). clear Hc. crush_cl.
+    destruct (qcap st <=? length (queue st))%nat; fin Hs; unfold clients_ok in *; cbn [admin_only clients]; rewrite Ea in Hok;
+      apply Forall_forall; intros x Hx; apply in_map_iff in Hx; destruct Hx as (c & <- & Hc);
+      rewrite Forall_forall in Hok; specialize (Hok _ Hc); clear Hc; crush_cl.
   - destruct (negb (main_ok st)); try discriminate. fin Hs. exact Hok.
   - destruct (negb (main_ok st)); try discriminate. fin Hs. unf.
     apply Forall_app. split; auto. constructor; auto.
@@ -220,7 +220,7 @@ Proof.
   destruct e.
   - destruct (negb (main_ok st)); try discriminate.
     destruct (admin_only st). { fin Hs. split; auto. }
-    fin Hs. unfold counter_ok. simpl. rewrite qsum_app, ncounted_set_pend. simpl. split; lia.
+    destruct (qcap st <=? length (queue st))%nat; fin Hs; unfold counter_ok; simpl; rewrite ?qsum_app, ncounted_set_pend; simpl; split; lia.
   - destruct (negb (main_ok st)); try discriminate. fin Hs. split; auto.
   - destruct (negb (main_ok st)); try discriminate. fin Hs. unfold counter_ok. simpl.
     rewrite ncounted_app. simpl. split; lia.
@@ -260,15 +260,15 @@ Qed.
 (** * Control state: timer, exit channel, wedge *)
 
 Definition ctl_ok (st : state) : Prop :=
-  (admin_only st = true <-> tmr st <> TNone) /\
+  ((tmr st <> TNone -> admin_only st = true) /\ (admin_only st = true -> tmr st <> TNone \/ wedged st = true)) /\
   (tmr st = TSent <-> exit_q st = Some ByTimer) /\
   (tmr st = TBlocked -> exit_q st = Some ByZero) /\
   (exit_q st <> Some ByTerm) /\
   (exit_q st <> None -> admin_only st = true) /\
-  (wedged st = true -> exit_q st <> None) /\
+  (wedged st = true -> admin_only st = true) /\
   (exit_q st = Some ByZero <-> (0 < zero_sends st)%nat) /\
   (forall x, exited st = Some x -> x = ByTerm \/ exit_q st = Some x) /\
-  (admin_only st = true -> queue st = [] -> total st = 0 -> exit_q st <> None) /\
+  (admin_only st = true -> wedged st = false -> queue st = [] -> total st = 0 -> exit_q st <> None) /\
   (tzero st = true -> tmr st = TNone \/ tmr st = TDead) /\
   (tzero st = false -> tmr st <> TDead).
 
@@ -304,68 +304,73 @@ Proof.
       right; eexists; reflexivity.
 Qed.
 
+Ltac cfields := cbn [admin_only total tmr exit_q wedged exited queue clients tzero qcap leaked zero_sends log] in *.
+
+Ltac fin_ctl :=
+  repeat split; intros; subst; try discriminate; try congruence; try tauto; try lia;
+  try (intuition (try discriminate; try congruence; try lia); fail).
+
 Lemma ctl_ok_step : forall st e st', ctl_ok st -> step st e = Some st' -> ctl_ok st'.
 Proof.
   intros st e st' H Hs.
   destruct (is_client_event e) eqn:He.
   - destruct (client_event_ctl _ _ _ He Hs) as (Hc & Hq). unfold ctl in Hc. inversion Hc; clear Hc.
-    unfold ctl_ok in *. destruct H as (A & B & C & D & E & F & G & I & J & K & L).
+    unfold ctl_ok in *. destruct H as ((A1 & A2) & B & C & D & E & F & G & I & J & K & L).
     repeat match goal with X : _ st' = _ st |- _ => rewrite X; clear X end.
-    repeat split; try tauto; try (apply A); try (apply B); try (apply G); auto.
-    intros Ha Hqe Ht. destruct Hq as [Hq | (m & Hq)]; rewrite Hq in Hqe; [auto |].
+    repeat split; try tauto.
+    intros Ha Hw Hqe Ht. destruct Hq as [Hq | (m & Hq)]; rewrite Hq in Hqe; [auto |].
     exfalso. eapply app_one_not_nil; eauto.
   - unfold step in Hs. destruct (exited st) eqn:Ex; try discriminate.
-    destruct H as (A & B & C & D & E & F & G & I & J & K & L).
+    destruct H as ((A1 & A2) & B & C & D & E & F & G & I & J & K & L).
     destruct e; try discriminate He.
     + (* Sigint *)
-      destruct (negb (main_ok st)); try discriminate.
+      destruct (negb (main_ok st)) eqn:Em; try discriminate.
+      assert (Hw : wedged st = false) by (unfold main_ok in Em; destruct (wedged st); auto; discriminate).
       destruct (admin_only st) eqn:Ea.
-      { fin Hs. unfold ctl_ok. rewrite ?Ea, ?Ex. repeat split; try tauto; try apply A; try apply B; try apply G; auto; discriminate. }
+      { fin Hs. unfold ctl_ok. rewrite ?Ea, ?Ex. fin_ctl. }
       assert (Hq : exit_q st = None). { destruct (exit_q st) eqn:Eq; auto. assert (false = true) by (apply E; congruence). discriminate. }
-      assert (Ht : tmr st = TNone). { destruct (tmr st) eqn:Et; auto; assert (false = true) by (apply A; congruence); discriminate. }
-      assert (Hw : wedged st = false). { destruct (wedged st) eqn:Ew; auto. exfalso. apply F; auto. }
-      fin Hs. unfold ctl_ok. simpl. rewrite ?Hq, ?Hw, ?Ex.
+      assert (Ht : tmr st = TNone). { destruct (tmr st) eqn:Et; auto; assert (false = true) by (apply A1; congruence); discriminate. }
       assert (Hz : zero_sends st = 0%nat). { destruct (zero_sends st) eqn:Ez; auto. assert (None = Some ByZero) by (rewrite <- Hq; apply G; lia). discriminate. }
-      rewrite ?Hz.
-      destruct (tzero st) eqn:Etz; repeat split; intros; try discriminate; try congruence; auto; try lia;
-        try (exfalso; eapply app_one_not_nil; eauto; fail).
+      destruct (qcap st <=? length (queue st))%nat.
+      * fin Hs. unfold ctl_ok. cfields. rewrite ?Hq, ?Ht, ?Ex, ?Hz. fin_ctl.
+      * fin Hs. unfold ctl_ok. cfields. rewrite ?Hq, ?Hw, ?Ex, ?Hz.
+        destruct (tzero st) eqn:Etz; fin_ctl; try (exfalso; eapply app_one_not_nil; eauto; fail).
     + (* Sigterm *)
-      destruct (negb (main_ok st)); try discriminate. fin Hs. unfold ctl_ok. simpl.
-      repeat split; try tauto; try apply A; try apply B; try apply G; auto.
-      intros x Hx. inversion Hx. auto.
+      destruct (negb (main_ok st)); try discriminate. fin Hs. unfold ctl_ok, with_exit. cfields.
+      repeat split; try tauto. intros x Hx. inversion Hx. auto.
     + (* Accept *)
-      destruct (negb (main_ok st)); try discriminate. fin Hs. unfold ctl_ok. simpl. rewrite ?Ex.
-      repeat split; try tauto; try apply A; try apply B; try apply G; auto; discriminate.
+      destruct (negb (main_ok st)); try discriminate. fin Hs. unfold ctl_ok, with_clients. cfields. rewrite ?Ex.
+      repeat split; try tauto; try discriminate.
     + (* DrainDeliver *)
       destruct (negb (main_ok st)) eqn:Em; try discriminate.
+      assert (Hw : wedged st = false) by (unfold main_ok in Em; destruct (wedged st); auto; discriminate).
       destruct (queue st) eqn:Eq; try discriminate.
       destruct ((total st + z =? 0) && admin_only st) eqn:Ez.
       * apply andb_true_iff in Ez. destruct Ez as (Ez & Ea). apply Z.eqb_eq in Ez.
         destruct (exit_q st) eqn:Eq2.
-        -- fin Hs. unfold ctl_ok. simpl. rewrite ?Eq2, ?Ex.
-           repeat split; try tauto; try apply A; try apply B; try apply G; auto; try discriminate.
-        -- fin Hs. unfold ctl_ok. simpl. rewrite ?Ex.
+        -- fin Hs. unfold ctl_ok. cfields. rewrite ?Eq2, ?Ex. fin_ctl.
+        -- fin Hs. unfold ctl_ok. cfields. rewrite ?Ex.
            assert (Ht : tmr st <> TSent) by (intro X; apply B in X; discriminate).
            assert (Ht2 : tmr st <> TBlocked) by (intro X; apply C in X; discriminate).
-           repeat split; intros; try discriminate; try congruence; try tauto; try apply A; auto; try lia.
-      * fin Hs. unfold ctl_ok. simpl. rewrite ?Ex.
-        repeat split; try tauto; try apply A; try apply B; try apply G; auto; try discriminate.
-        intros Ha Hq Ht. rewrite Ha in Ez. rewrite andb_true_r in Ez. apply Z.eqb_neq in Ez. contradiction.
+           assert (Hz : zero_sends st = 0%nat). { destruct (zero_sends st) eqn:Ezs; auto. assert (None = Some ByZero) by (apply G; lia). discriminate. }
+           rewrite Hw in *. fin_ctl.
+      * fin Hs. unfold ctl_ok. cfields. rewrite ?Ex.
+        repeat split; try tauto; try discriminate.
+        intros Ha Hw' Hq Ht. rewrite Ha in Ez. rewrite andb_true_r in Ez. apply Z.eqb_neq in Ez. contradiction.
     + (* TimerFire *)
       destruct (tmr st) eqn:Et; try discriminate.
-      assert (Ha : admin_only st = true) by (apply A; congruence).
+      assert (Ha : admin_only st = true) by (apply A1; congruence).
       assert (Htz : tzero st = false). { destruct (tzero st) eqn:Etz; auto. destruct (K eq_refl); congruence. }
       destruct (exit_q st) eqn:Eq.
       * assert (Hc : c = ByZero). { destruct c; auto. - exfalso; apply D; auto. - assert (TArmed = TSent) by (apply B; auto). discriminate. }
-        subst c. fin Hs. unfold ctl_ok. simpl. rewrite ?Eq, ?Ex, ?Htz.
-        repeat split; intros; try discriminate; try congruence; try tauto; try apply G; auto.
-      * fin Hs. unfold ctl_ok. simpl. rewrite ?Ex, ?Htz.
-        repeat split; intros; try discriminate; try congruence; try tauto; auto.
-        all: try (exfalso; match goal with X : (0 < zero_sends _)%nat |- _ => apply G in X; discriminate end).
+        subst c. fin Hs. unfold ctl_ok. cfields. rewrite ?Eq, ?Ex, ?Htz. fin_ctl.
+      * fin Hs. unfold ctl_ok. cfields. rewrite ?Ex, ?Htz.
+        assert (Hz : zero_sends st = 0%nat). { destruct (zero_sends st) eqn:Ezs; auto. assert (None = Some ByZero) by (apply G; lia). discriminate. }
+        rewrite Hz. fin_ctl.
     + (* ExitDeliver *)
       destruct (negb (main_ok st)); try discriminate. destruct (exit_q st) eqn:Eq; try discriminate.
-      fin Hs. unfold ctl_ok. simpl. rewrite ?Eq.
-      repeat split; try tauto; try apply A; try apply B; try apply G; auto; try discriminate.
+      fin Hs. unfold ctl_ok, with_exit. cfields. rewrite ?Eq.
+      repeat split; try tauto; try discriminate.
       all: try (intros x Hx; inversion Hx; auto).
 Qed.
 
@@ -373,7 +378,7 @@ Qed.
 
 Definition Inv (st : state) : Prop := clients_ok st /\ counter_ok st /\ ctl_ok st.
 
-Lemma Inv_init : forall tz, Inv (init tz).
+Lemma Inv_init : forall tz cap, Inv (init tz cap).
 Proof.
   intros. unfold Inv, clients_ok, counter_ok, ctl_ok, init. simpl.
   split; [constructor |]. split; [lia |].
@@ -421,9 +426,8 @@ Proof.
   destruct e; simpl in Ha.
   - destruct (negb (main_ok st)); try discriminate. destruct (admin_only st).
     { fin Hs. eauto using same_but_pend_refl. }
-    fin Hs. cbn [clients]. exists (set_pend c true). split.
-    + rewrite nth_error_map, Hn. reflexivity.
-    + unfold same_but_pend; simpl; auto.
+    destruct (qcap st <=? length (queue st))%nat; fin Hs; cbn [clients]; exists (set_pend c true); (split;
+      [rewrite nth_error_map, Hn; reflexivity | unfold same_but_pend; simpl; auto]).
   - destruct (negb (main_ok st)); try discriminate. fin Hs. eauto using same_but_pend_refl.
   - destruct (negb (main_ok st)); try discriminate. fin Hs. unf. exists c. split; auto using same_but_pend_refl.
     rewrite nth_error_app1; auto. apply nth_error_Some. congruence.
@@ -465,7 +469,7 @@ Lemma log_step : forall st e st', step st e = Some st' ->
 Proof.
   intros st e st' Hs. unfold step in Hs. destruct (exited st); try discriminate.
   destruct e.
-  - destruct (negb (main_ok st)); try discriminate. destruct (admin_only st); fin Hs; auto.
+  - destruct (negb (main_ok st)); try discriminate. destruct (admin_only st); [| destruct (qcap st <=? length (queue st))%nat]; fin Hs; auto.
   - destruct (negb (main_ok st)); try discriminate. fin Hs. right. eexists. split; reflexivity.
   - destruct (negb (main_ok st)); try discriminate. fin Hs. auto.
   - destruct (nth_error (clients st) c); try discriminate. destruct (cphase c0); try discriminate.
@@ -631,7 +635,7 @@ Proof.
   assert (Hne : forall (l : list obs), l <> OKicked i :: l).
   { intros l H. assert (length l = length (OKicked i :: l)) by congruence. simpl in H0. lia. }
   destruct e.
-  - destruct (negb (main_ok st)); try discriminate. destruct (admin_only st); fin Hs; cbn [log] in Hl;
+  - destruct (negb (main_ok st)); try discriminate. destruct (admin_only st); [| destruct (qcap st <=? length (queue st))%nat]; fin Hs; cbn [log] in Hl;
       exfalso; eapply Hne; eauto.
   - destruct (negb (main_ok st)); try discriminate. fin Hs. unf. inversion Hl.
   - destruct (negb (main_ok st)); try discriminate. fin Hs. unf. exfalso; eapply Hne; eauto.
@@ -720,7 +724,7 @@ Proof.
   { destruct (client_event_ctl _ _ _ He Hs) as (Hc & _). unfold ctl in Hc. inversion Hc. congruence. }
   unfold step in Hs. rewrite H0 in Hs.
   destruct e; try discriminate He.
-  - destruct (negb (main_ok st)); try discriminate. destruct (admin_only st); fin Hs; cbn [exited] in Hx; congruence.
+  - destruct (negb (main_ok st)); try discriminate. destruct (admin_only st); [| destruct (qcap st <=? length (queue st))%nat]; fin Hs; cbn [exited] in Hx; congruence.
   - destruct (negb (main_ok st)); try discriminate. fin Hs. unf. inversion Hx. auto.
   - destruct (negb (main_ok st)); try discriminate. fin Hs. unf. congruence.
   - destruct (negb (main_ok st)); try discriminate. destruct (queue st); try discriminate.
@@ -739,7 +743,7 @@ Proof.
   { destruct (client_event_ctl _ _ _ He Hs) as (Hc & _). unfold ctl in Hc. inversion Hc. congruence. }
   unfold step in Hs. destruct (exited st); try discriminate.
   destruct e; try discriminate He.
-  - destruct (negb (main_ok st)); try discriminate. destruct (admin_only st); fin Hs; cbn [exit_q] in Hx; congruence.
+  - destruct (negb (main_ok st)); try discriminate. destruct (admin_only st); [| destruct (qcap st <=? length (queue st))%nat]; fin Hs; cbn [exit_q] in Hx; congruence.
   - destruct (negb (main_ok st)); try discriminate. fin Hs. unf. congruence.
   - destruct (negb (main_ok st)); try discriminate. fin Hs. unf. congruence.
   - destruct (negb (main_ok st)); try discriminate. destruct (queue st); try discriminate.
@@ -757,7 +761,7 @@ Proof.
   { destruct (client_event_ctl _ _ _ He Hs) as (Hc & _). unfold ctl in Hc. inversion Hc. congruence. }
   unfold step in Hs. destruct (exited st); try discriminate.
   destruct e; try discriminate He.
-  - destruct (negb (main_ok st)); try discriminate. destruct (admin_only st); fin Hs; auto.
+  - destruct (negb (main_ok st)); try discriminate. destruct (admin_only st); [| destruct (qcap st <=? length (queue st))%nat]; fin Hs; auto.
   - destruct (negb (main_ok st)); try discriminate. fin Hs. auto.
   - destruct (negb (main_ok st)); try discriminate. fin Hs. auto.
   - destruct (negb (main_ok st)); try discriminate. destruct (queue st); try discriminate.
@@ -782,60 +786,60 @@ Proof.
   - destruct (negb (main_ok st)); try discriminate. destruct (exit_q st); try discriminate. fin Hs. auto.
 Qed.
 
-Lemma admin_only_needs_sigint : forall tz tr st, run (init tz) tr = Some st -> admin_only st = true -> In Sigint tr.
+Lemma admin_only_needs_sigint : forall tz cap tr st, run (init tz cap) tr = Some st -> admin_only st = true -> In Sigint tr.
 Proof.
-  intros tz tr. induction tr using rev_ind; intros st Hr Ha.
+  intros tz cap tr. induction tr using rev_ind; intros st Hr Ha.
   - simpl in Hr. fin Hr. discriminate.
-  - rewrite run_app in Hr. destruct (run (init tz) tr) eqn:E; try discriminate. simpl in Hr.
+  - rewrite run_app in Hr. destruct (run (init tz cap) tr) eqn:E; try discriminate. simpl in Hr.
     destruct (step s x) eqn:Es; try discriminate. fin Hr. apply in_or_app.
     destruct (admin_only_step _ _ _ Es Ha) as [H | H]; [left; eauto | right; subst; simpl; auto].
 Qed.
 
 (** where the message in the exit channel came from *)
-Definition exitq_origin (tz : bool) (tr : list event) (x : cause) : Prop :=
+Definition exitq_origin (tz : bool) (cap : nat) (tr : list event) (x : cause) : Prop :=
   match x with
   | ByTerm => False
-  | ByZero => exists tr1 tr2 s1, tr = tr1 ++ DrainDeliver :: tr2 /\ run (init tz) (tr1 ++ [DrainDeliver]) = Some s1 /\
+  | ByZero => exists tr1 tr2 s1, tr = tr1 ++ DrainDeliver :: tr2 /\ run (init tz cap) (tr1 ++ [DrainDeliver]) = Some s1 /\
                                  admin_only s1 = true /\ total s1 = 0
   | ByTimer => exists tr1 tr2, tr = tr1 ++ TimerFire :: tr2 /\ In Sigint tr1
   end.
 
-Lemma exitq_origin_snoc : forall tz tr x e, exitq_origin tz tr x -> exitq_origin tz (tr ++ [e]) x.
+Lemma exitq_origin_snoc : forall tz cap tr x e, exitq_origin tz cap tr x -> exitq_origin tz cap (tr ++ [e]) x.
 Proof.
-  intros tz tr x e H. destruct x; simpl in *; auto.
+  intros tz cap tr x e H. destruct x; simpl in *; auto.
   - destruct H as (tr1 & tr2 & s1 & -> & H). exists tr1, (tr2 ++ [e]), s1. rewrite <- app_assoc. auto.
   - destruct H as (tr1 & tr2 & -> & H). exists tr1, (tr2 ++ [e]). rewrite <- app_assoc. auto.
 Qed.
 
-Lemma exitq_has_origin : forall tz tr st x, run (init tz) tr = Some st -> exit_q st = Some x -> exitq_origin tz tr x.
+Lemma exitq_has_origin : forall tz cap tr st x, run (init tz cap) tr = Some st -> exit_q st = Some x -> exitq_origin tz cap tr x.
 Proof.
-  intros tz tr. induction tr using rev_ind; intros st y Hr Hq.
+  intros tz cap tr. induction tr using rev_ind; intros st y Hr Hq.
   - simpl in Hr. fin Hr. discriminate.
-  - rewrite run_app in Hr. destruct (run (init tz) tr) eqn:E; try discriminate. simpl in Hr.
+  - rewrite run_app in Hr. destruct (run (init tz cap) tr) eqn:E; try discriminate. simpl in Hr.
     destruct (step s x) eqn:Es; try discriminate. fin Hr.
     destruct (exit_q s) eqn:Eq.
     + rewrite (exitq_mono _ _ _ _ Es Eq) in Hq. fin Hq. apply exitq_origin_snoc. eauto.
     + destruct (exitq_step _ _ _ _ Es Eq Hq) as [(-> & -> & Ha & Ht) | (-> & -> & Ht)].
       * simpl. exists tr, [], st. repeat split; auto. rewrite run_app, E. simpl. rewrite Es. reflexivity.
       * simpl. exists tr, []. split; auto. eapply admin_only_needs_sigint; eauto.
-        destruct (reachable_Inv s) as (_ & _ & (A & _)). { exists tz, tr; auto. } apply A. congruence.
+        destruct (reachable_Inv s) as (_ & _ & (A & _)). { exists tz, cap, tr; auto. } apply A. congruence.
 Qed.
 
-Definition exit_origin (tz : bool) (tr : list event) (x : cause) : Prop :=
+Definition exit_origin (tz : bool) (cap : nat) (tr : list event) (x : cause) : Prop :=
   match x with
   | ByTerm => In Sigterm tr
-  | _ => In ExitDeliver tr /\ exitq_origin tz tr x
+  | _ => In ExitDeliver tr /\ exitq_origin tz cap tr x
   end.
 
-Lemma exit_has_origin : forall tz tr st x, run (init tz) tr = Some st -> exited st = Some x -> exit_origin tz tr x.
+Lemma exit_has_origin : forall tz cap tr st x, run (init tz cap) tr = Some st -> exited st = Some x -> exit_origin tz cap tr x.
 Proof.
-  intros tz tr. induction tr using rev_ind; intros st y Hr Hx.
+  intros tz cap tr. induction tr using rev_ind; intros st y Hr Hx.
   - simpl in Hr. fin Hr. discriminate.
-  - rewrite run_app in Hr. destruct (run (init tz) tr) eqn:E; try discriminate. simpl in Hr.
+  - rewrite run_app in Hr. destruct (run (init tz cap) tr) eqn:E; try discriminate. simpl in Hr.
     destruct (step s x) eqn:Es; try discriminate. fin Hr.
     destruct (exit_step _ _ _ _ Es Hx) as [(-> & ->) | (-> & Hq)].
     + simpl. apply in_or_app. right. simpl. auto.
-    + assert (Ho : exitq_origin tz tr y) by (eapply exitq_has_origin; eauto).
+    + assert (Ho : exitq_origin tz cap tr y) by (eapply exitq_has_origin; eauto).
       destruct y; simpl in *; try contradiction; (split; [apply in_or_app; right; simpl; auto |]).
       * destruct Ho as (tr1 & tr2 & s1 & -> & H). exists tr1, (tr2 ++ [ExitDeliver]), s1. rewrite <- app_assoc. auto.
       * destruct Ho as (tr1 & tr2 & -> & H). exists tr1, (tr2 ++ [ExitDeliver]). rewrite <- app_assoc. auto.
@@ -870,19 +874,19 @@ Lemma timer_forces_exit : forall st, Inv st -> exited st = None -> wedged st = f
   exists tr st', (tr = [TimerFire; ExitDeliver] \/ tr = [ExitDeliver]) /\ run st tr = Some st' /\
                  exists x, exited st' = Some x /\ x <> ByTerm.
 Proof.
-  intros st (_ & _ & (A & B & C & D & E & F & G & I & J & K & L)) Hx Hw Ha Htz.
+  intros st (_ & _ & ((A1 & A2) & B & C & D & E & F & G & I & J & K & L)) Hx Hw Ha Htz.
   assert (Hex : forall s x, exited s = None -> wedged s = false -> exit_q s = Some x -> x <> ByTerm ->
                 exists st', run s [ExitDeliver] = Some st' /\ exists y, exited st' = Some y /\ y <> ByTerm).
   { intros s x H1 H2 H3 H4. simpl. rewrite (exit_deliver_enabled _ _ H1 H2 H3). eexists. split; eauto.
     unf. eauto. }
   destruct (tmr st) eqn:Et.
-  - exfalso. apply A in Ha. congruence.
+  - exfalso. destruct (A2 Ha); congruence.
   - destruct (exit_q st) eqn:Eq.
     + destruct (Hex st c Hx Hw Eq) as (st' & Hr & Hy). { intro; subst; apply D; auto. }
       exists [ExitDeliver], st'. auto.
     + exists [TimerFire; ExitDeliver].
       set (s1 := mkS (admin_only st) (total st) TSent (Some ByTimer) (wedged st) (exited st) (queue st)
-                     (clients st) (tzero st) (leaked st) (zero_sends st) (log st)).
+                     (clients st) (tzero st) (qcap st) (leaked st) (zero_sends st) (log st)).
       assert (Hs : step st TimerFire = Some s1).
       { unfold step. rewrite Et, Eq. rewrite Hx at 1. reflexivity. }
       destruct (Hex s1 ByTimer) as (st' & Hr & Hy); auto; try discriminate.
@@ -955,20 +959,24 @@ Proof.
 Qed.
 
 Lemma wedge_origin : forall st e st', step st e = Some st' -> wedged st = false -> wedged st' = true ->
-  e = DrainDeliver /\ exit_q st <> None /\ total st' = 0 /\ admin_only st = true.
+  (e = DrainDeliver /\ exit_q st <> None /\ total st' = 0 /\ admin_only st = true) \/
+  (e = Sigint /\ admin_only st = false /\ (qcap st <= length (queue st))%nat).
 Proof.
   intros st e st' Hs Hw Hw'.
   destruct (is_client_event e) eqn:He.
   { destruct (client_event_ctl _ _ _ He Hs) as (Hc & _). unfold ctl in Hc. inversion Hc. congruence. }
   unfold step in Hs. destruct (exited st); try discriminate.
   destruct e; try discriminate He.
-  - destruct (negb (main_ok st)); try discriminate. destruct (admin_only st); fin Hs; cbn [wedged] in Hw'; congruence.
+  - destruct (negb (main_ok st)); try discriminate.
+    destruct (admin_only st) eqn:Ea; [| destruct (qcap st <=? length (queue st))%nat eqn:Ec]; fin Hs;
+      cbn [wedged] in Hw'; try congruence.
+    right. apply Nat.leb_le in Ec. auto.
   - destruct (negb (main_ok st)); try discriminate. fin Hs. unf. congruence.
   - destruct (negb (main_ok st)); try discriminate. fin Hs. unf. congruence.
   - destruct (negb (main_ok st)); try discriminate. destruct (queue st); try discriminate.
     destruct ((total st + z =? 0) && admin_only st) eqn:Ez; [destruct (exit_q st) eqn:Eq |]; fin Hs;
       cbn [wedged] in Hw'; try congruence.
-    apply andb_true_iff in Ez. destruct Ez as (Ez & Ea). apply Z.eqb_eq in Ez. cbn. repeat split; auto; congruence.
+    apply andb_true_iff in Ez. destruct Ez as (Ez & Ea). apply Z.eqb_eq in Ez. left. cbn. repeat split; auto; congruence.
   - destruct (tmr st); try discriminate. destruct (exit_q st); fin Hs; cbn [wedged] in Hw'; congruence.
   - destruct (negb (main_ok st)); try discriminate. destruct (exit_q st); try discriminate. fin Hs. unf. congruence.
 Qed.
@@ -996,7 +1004,7 @@ Lemma leak_preserved : forall st e st', step st e = Some st' -> 0 < leaked st ->
 Proof.
   intros st e st' Hs Hl Hnp He. unfold step in Hs. destruct (exited st); try discriminate.
   destruct e.
-  - destruct (negb (main_ok st)); try discriminate. destruct (admin_only st); fin Hs; auto.
+  - destruct (negb (main_ok st)); try discriminate. destruct (admin_only st); [| destruct (qcap st <=? length (queue st))%nat]; fin Hs; auto.
     cbn. rewrite no_pos_app, Hnp. auto.
   - destruct (negb (main_ok st)); try discriminate. fin Hs. auto.
   - destruct (negb (main_ok st)); try discriminate. fin Hs. auto.
@@ -1028,7 +1036,7 @@ Proof.
   { destruct (client_event_ctl _ _ _ He Hs) as (Hc & _). unfold ctl in Hc. inversion Hc. congruence. }
   unfold step in Hs. destruct (exited st); try discriminate.
   destruct e; try discriminate He; try congruence.
-  - destruct (negb (main_ok st)); try discriminate. destruct (admin_only st); fin Hs; auto.
+  - destruct (negb (main_ok st)); try discriminate. destruct (admin_only st); [| destruct (qcap st <=? length (queue st))%nat]; fin Hs; auto.
   - destruct (negb (main_ok st)); try discriminate. fin Hs. auto.
   - destruct (negb (main_ok st)); try discriminate. fin Hs. auto.
   - destruct (tmr st); try discriminate. destruct (exit_q st); fin Hs; auto.
@@ -1110,15 +1118,15 @@ Lemma session_held_not_kicked : forall st i c, nth_error (clients st) i = Some c
   cphase c = SessionHeld -> step st (Poll i) = None.
 Proof. intros. eapply txn_not_polled; eauto. right; auto. Qed.
 
-Lemma exit_condition : forall tz tr st x, run (init tz) tr = Some st -> exited st = Some x ->
+Lemma exit_condition : forall tz cap tr st x, run (init tz cap) tr = Some st -> exited st = Some x ->
   match x with
   | ByTerm => In Sigterm tr
   | ByZero => In ExitDeliver tr /\
-              exists tr1 tr2 s1, tr = tr1 ++ DrainDeliver :: tr2 /\ run (init tz) (tr1 ++ [DrainDeliver]) = Some s1 /\
+              exists tr1 tr2 s1, tr = tr1 ++ DrainDeliver :: tr2 /\ run (init tz cap) (tr1 ++ [DrainDeliver]) = Some s1 /\
                                  admin_only s1 = true /\ total s1 = 0
   | ByTimer => In ExitDeliver tr /\ exists tr1 tr2, tr = tr1 ++ TimerFire :: tr2 /\ In Sigint tr1
   end.
-Proof. intros tz tr st x Hr Hx. pose proof (exit_has_origin _ _ _ _ Hr Hx) as H. destruct x; exact H. Qed.
+Proof. intros tz cap tr st x Hr Hx. pose proof (exit_has_origin _ _ _ _ _ Hr Hx) as H. destruct x; exact H. Qed.
 
 Lemma r_all_left_exits : forall st, reachable st -> exited st = None -> wedged st = false ->
   admin_only st = true -> ncounted (clients st) = 0 -> leaked st = 0 ->
@@ -1153,13 +1161,13 @@ Definition wedge_cancel : list event :=
   [Sigint; DrainDeliver; Accept Canc TxnMode; AuthDone 0 true; Leave 0 Clean; DrainDeliver; DrainDeliver; TimerFire].
 
 Lemma wedge_witness : forall tr, (tr = wedge_inflight \/ tr = wedge_cancel) ->
-  exists st, run (init false) tr = Some st /\ wedged st = true /\ all_gone st = true /\ tmr st = TBlocked /\
+  exists st, run (init false 2048) tr = Some st /\ wedged st = true /\ all_gone st = true /\ tmr st = TBlocked /\
              total st = 0 /\ queue st = [] /\ exited st = None.
 Proof.
   intros tr [-> | ->]; (eexists; split; [vm_compute; reflexivity | vm_compute; repeat split; reflexivity]).
 Qed.
 
-Lemma exit_liveness_refuted : exists tr st, run (init false) tr = Some st /\
+Lemma exit_liveness_refuted : exists tr st, run (init false 2048) tr = Some st /\
   all_gone st = true /\ tmr st = TBlocked /\ total st = 0 /\ queue st = [] /\
   forall tr' st', run st tr' = Some st' -> exited st' = None.
 Proof.
@@ -1169,18 +1177,97 @@ Proof.
 Qed.
 
 (** the guard under which the liveness theorems speak: the trace does not wedge *)
-Definition known_wedge (tz : bool) (tr : list event) : bool :=
-  match run (init tz) tr with Some st => wedged st | None => false end.
+Definition known_wedge (tz : bool) (cap : nat) (tr : list event) : bool :=
+  match run (init tz cap) tr with Some st => wedged st | None => false end.
 
-Lemma exit_liveness_guarded : forall tz tr st, run (init tz) tr = Some st -> known_wedge tz tr = false ->
+Lemma exit_liveness_guarded : forall tz cap tr st, run (init tz cap) tr = Some st -> known_wedge tz cap tr = false ->
   exited st = None -> admin_only st = true -> tzero st = false ->
   exists tr' st', run st tr' = Some st' /\ exists x, exited st' = Some x /\ x <> ByTerm.
 Proof.
-  intros tz tr st Hr Hk Hx Ha Htz. unfold known_wedge in Hk. rewrite Hr in Hk.
+  intros tz cap tr st Hr Hk Hx Ha Htz. unfold known_wedge in Hk. rewrite Hr in Hk.
   destruct (timer_forces_exit st) as (tr' & st' & _ & Hr' & Hy); auto.
-  - apply reachable_Inv. exists tz, tr. exact Hr.
+  - apply reachable_Inv. exists tz, cap, tr. exact Hr.
   - eauto.
 Qed.
 
-Lemma known_wedge_refuted : exists tr, known_wedge false tr = true.
+Lemma known_wedge_refuted : exists tr, known_wedge false 2048 tr = true.
 Proof. exists wedge_inflight. vm_compute. reflexivity. Qed.
+
+(** W3: SIGINT on a full drain channel.  1024 cancel requests (or connect/disconnect pairs) whose
+    +1/-1 the main loop has not received yet fill the 2048 slots ([qcap]); the SIGINT arm's own
+    [drain_tx.send(0).await] then waits for a receiver that is the suspended loop itself.  The
+    broadcast has been sent, the timer task has not been spawned: no timeout either. *)
+Definition cancel_burst (n : nat) : list event :=
+  flat_map (fun i => [Accept Canc TxnMode; AuthDone i true; Leave i Clean]) (seq 0 n).
+
+(* the witness is computed for a channel of 64 slots (32 requests); the schedule is the same for 2048 *)
+Definition wedge_full_cap : nat := 64.
+Definition wedge_full : list event := cancel_burst 32 ++ [Sigint].
+
+Definition is_tnone (t : timer) : bool := match t with TNone => true | _ => false end.
+Definition is_none {A : Type} (o : option A) : bool := match o with None => true | _ => false end.
+
+Definition wedge_full_check : bool :=
+  match run (init false wedge_full_cap) wedge_full with
+  | Some st => wedged st && all_gone st && is_tnone (tmr st) && admin_only st && is_none (exited st) &&
+               Nat.eqb (length (queue st)) wedge_full_cap && is_none (step st TimerFire)
+  | None => false
+  end.
+
+Lemma wedge_full_check_ok : wedge_full_check = true.
+Proof. vm_compute. reflexivity. Qed.
+
+Lemma wedge_full_witness : exists st, run (init false wedge_full_cap) wedge_full = Some st /\ wedged st = true /\
+  all_gone st = true /\ tmr st = TNone /\ admin_only st = true /\ exited st = None /\ length (queue st) = wedge_full_cap /\
+  step st TimerFire = None.
+Proof.
+  pose proof wedge_full_check_ok as H. unfold wedge_full_check in H.
+  destruct (run (init false wedge_full_cap) wedge_full) as [st |]; try discriminate.
+  exists st. split; auto.
+  repeat (apply andb_true_iff in H; destruct H as (H & ?)).
+  repeat split; auto.
+  - destruct (tmr st); auto; discriminate.
+  - destruct (exited st); auto; discriminate.
+  - apply Nat.eqb_eq; auto.
+  - destruct (step st TimerFire); auto; discriminate.
+Qed.
+
+Lemma wedged_no_timer_step : forall st e st', wedged st = true -> tmr st = TNone -> step st e = Some st' -> tmr st' = TNone.
+Proof.
+  intros st a s Hw Ht Es. unfold step, main_ok in Es. destruct (exited st); try discriminate. rewrite Hw in Es. simpl in Es.
+  destruct a; try discriminate.
+  * destruct (nth_error (clients st) c); try discriminate. destruct (cphase c0); try discriminate.
+    destruct (ckind c0); [destruct (gate c0); [| destruct ok] | destruct ok | destruct ok]; fin Es; unf; auto.
+  * destruct (nth_error (clients st) c); try discriminate. destruct (ckind c0); try discriminate.
+    destruct (cphase c0); try discriminate; fin Es; unf; auto.
+  * destruct (nth_error (clients st) c); try discriminate.
+    destruct (ckind c0); try discriminate; destruct (cphase c0); try discriminate; fin Es; unf; auto.
+  * destruct (nth_error (clients st) c); try discriminate. destruct (ckind c0); try discriminate.
+    destruct (cphase c0); try discriminate; fin Es; unf; auto.
+  * destruct (nth_error (clients st) c); try discriminate. destruct (cphase c0); try discriminate.
+    destruct (pend c0); try discriminate.
+    destruct (ckind c0); fin Es; unfold depart; try (destruct (counted c0)); unf; auto.
+  * destruct (nth_error (clients st) c); try discriminate. destruct (live_phase (cphase c0)); try discriminate.
+    fin Es. unfold depart. destruct (counted c0); [destruct h |]; unf; auto.
+  * rewrite Ht in Es. discriminate.
+Qed.
+
+Lemma wedged_no_timer : forall tr st st', wedged st = true -> tmr st = TNone -> run st tr = Some st' -> tmr st' = TNone.
+Proof.
+  induction tr; simpl; intros st st' Hw Ht H.
+  - inversion H; subst; auto.
+  - destruct (step st a) eqn:Es; try discriminate.
+    destruct (wedge_forever_step _ _ _ Hw Es) as (Hw1 & _).
+    apply (IHtr s st'); auto. apply (wedged_no_timer_step st a s Hw Ht Es).
+Qed.
+
+Lemma sigint_full_refuted : exists cap tr st, run (init false cap) tr = Some st /\
+  all_gone st = true /\ admin_only st = true /\ tmr st = TNone /\
+  forall tr' st', run st tr' = Some st' -> exited st' = None /\ tmr st' = TNone.
+Proof.
+  destruct wedge_full_witness as (st & Hr & Hw & Hg & Ht & Ha & Hx & Hl & Hf).
+  exists wedge_full_cap, wedge_full, st. split; auto. split; auto. split; auto. split; auto.
+  intros tr' st' H. split.
+  - destruct (wedge_forever _ _ _ Hw Hx H). auto.
+  - eapply wedged_no_timer; eauto.
+Qed.
